@@ -622,6 +622,56 @@ func checkReserveConsume(p *Prog, r *Report, overhead int64) {
 		r.bad("C10.M4", flush.Name, p.Pos(flush.Node), "reservations", "flush never reserves space", "")
 	}
 	_ = ptrVar
+	// the other direction: nothing is encoded without a reservation of its own — from the entry, and from every
+	// encoding, no path reaches an(other) encoding without passing the reserve helper (an unreserved run of
+	// segments, e.g. all pending ACKs, overruns the staging buffer and the MTU)
+	encM := p.Method("segment", "encode")
+	isReserve := func(nd ast.Node, _ Point) bool {
+		hit := false
+		inspectShallow(nd, func(x ast.Node) bool {
+			if call, ok := x.(*ast.CallExpr); ok {
+				if id, isId := ast.Unparen(call.Fun).(*ast.Ident); isId && makeSpace != nil && p.Info.Uses[id] == types.Object(makeSpace) {
+					hit = true
+				}
+			}
+			return true
+		})
+		return hit
+	}
+	var encPts []Point
+	for _, s := range p.CallsTo(encM) {
+		if s.Fn != flush {
+			continue
+		}
+		if q, ok := c.PointOf(s.Call); ok {
+			encPts = append(encPts, q)
+		}
+	}
+	isEnc := func(_ ast.Node, q Point) bool {
+		for _, e := range encPts {
+			if e == q {
+				return true
+			}
+		}
+		return false
+	}
+	starts := append([]Point{{c.Entry(), 0}}, encPts...)
+	for i, from := range starts {
+		st := from
+		what := "from the entry of flush"
+		pos := p.Pos(flush.Node)
+		if i > 0 {
+			st = Point{from.B, from.I + 1}
+			what = "after the encoding at " + p.Pos(from.Node())
+			pos = p.Pos(from.Node())
+		}
+		res := c.FindPath(PathQuery{From: st, IsTarget: isEnc, IsBarrier: isReserve})
+		if res.Found {
+			r.bad("C10.M4", flush.Name, pos, "every encoding has its own reservation ("+what+")", "a segment is encoded "+what+" without a reservation in between: the bytes written were never checked against the MTU and the staging buffer — a run of such segments (the number of pending ACKs is decided by the peer) is handed to the output callback as one oversized packet or runs off the buffer", c.DescribePath(res.Path))
+		} else {
+			r.ok("C10.M4", flush.Name, pos, "every encoding has its own reservation ("+what+")", "the reserve helper is called on every path to the next encoding")
+		}
+	}
 }
 
 // ---------------------------------------------------------------- M5
